@@ -4,6 +4,7 @@ write_clock_error_bound) and the status FSM (through its vtable), executed symbo
 `extract_bound_from_tracking` is environment here (C07/C10 decide it): it returns an arbitrary bound and an
 arbitrary class, so the updater's bookkeeping is checked for every outcome of it.  `ShmWrite::write` is the
 observation point: the record handed to it after every step."""
+import os
 import time
 
 import z3
@@ -587,7 +588,9 @@ def run_check(prop, tier, seed, owner=None, only_clauses=None):
     prog, mir_wall = load_dlib_program()
     um = UpdaterModel(prog)
     drift = z3.Int('drift')
-    H = 4 if tier == 'quick' else 6
+    # thorough: histories of up to 5 outcomes (3 + 9 + ... + 243 shapes).  Depth 6 (729 more shapes, 30-45 min) decides as well on a quiet
+    # machine (VERIF_HISTORY_DEPTH=6), but one of its queries ran into the solver's time limit on a loaded one: it is not the registered bound
+    H = 4 if tier == 'quick' else max(4, min(7, int(os.environ.get('VERIF_HISTORY_DEPTH', '5') or 5)))
     pr = Prover(seed)
     rp = common.Replay('debug'); rp2 = common.Replay('release')
     stats = [0, 0]
